@@ -7,6 +7,7 @@ mod policy;
 mod reader;
 mod source;
 mod util;
+mod wi;
 
 use serde_json::Value;
 use std::io::Write;
@@ -151,6 +152,14 @@ fn main() {
     match args[0].as_str() {
         "reader" => cmd_reader(&args[1..]),
         "replay-reader" => cmd_replay_reader(&args[1..]),
+        "writer" => {
+            let a = &args[1..];
+            wi::cmd_writer(&arg(a, "--out").unwrap_or_else(|| usage()), arg(a, "--seed").map(|s| s.parse().unwrap()).unwrap_or(1), a.iter().any(|x| x == "--thorough"));
+        }
+        "iters" => {
+            let a = &args[1..];
+            wi::cmd_iters(&arg(a, "--out").unwrap_or_else(|| usage()), arg(a, "--seed").map(|s| s.parse().unwrap()).unwrap_or(1), a.iter().any(|x| x == "--thorough"));
+        }
         "par-record" => {
             let a = &args[1..];
             let cfgs: Value = serde_json::from_str(&std::fs::read_to_string(arg(a, "--cfgs").unwrap_or_else(|| usage())).unwrap()).unwrap();
